@@ -288,6 +288,9 @@ func (st *ccState) oracleRouting(v *vio) {
 func (st *ccState) checkErrors(v *vio) {
 	p := st.cfg.p
 	for _, c := range st.calls {
+		if c.returned && c.err == nil && c.retNil && st.cfg.mode != modeRouting {
+			v.add("R1-nil", "call %d (xid %x): returned (nil, nil)", c.id, c.spec.xid) // (the routing oracle reports this itself)
+		}
 		if !c.returned || c.err == nil {
 			continue
 		}
